@@ -55,3 +55,11 @@ Inductive lookup (A : Type) := LFound (a : A) | LNotFound | LFail.
 Arguments LFound {A}. Arguments LNotFound {A}. Arguments LFail {A}.
 (* for i := hi; i >= 0; i-- *)
 Definition go_range_down (hi : N) : list N := rev (go_range 0 (hi + 1)).
+
+(* fmt.Errorf("... %w", err): always an error; the class of the wrapped one is kept (a wrapped nil is still an error) *)
+Definition err_wrap (e : gerr) : gerr := match e with EOK => EFail | _ => e end.
+(* Go int (64-bit two's complement) as Z with explicit wrap *)
+Definition i64_wrap (z : Z) : Z := ((z + 9223372036854775808) mod 18446744073709551616 - 9223372036854775808)%Z.
+Definition i64_add (a b : Z) : Z := i64_wrap (a + b).
+Definition i64_sub (a b : Z) : Z := i64_wrap (a - b).
+Definition i64_mul (a b : Z) : Z := i64_wrap (a * b).
